@@ -5,6 +5,7 @@
 (*            route (whole data, every (subset_num, num_subsets), every group of related        *)
 (*            viewgrams, windows, on-the-fly projector), forward (e_v) and back (e_b)           *)
 (*   Col      (history blocks) the columns of the recorded F                                   *)
+(*   OtfGroup on-the-fly projector into a group of viewgrams that already holds data             *)
 (*   HistStart SetData SetInput ForwardSubset ForwardGroup StartNewTarget BackSubset BackGroup  *)
 (*            GetOutput BackInto: a history of calls with small integer images / data          *)
 (* Bin lines are independent observations, history lines are re-synchronised on what was        *)
@@ -60,7 +61,8 @@ ConfigOk(r) ==
   /\ \A q \in 1 .. Len(r.Ns) : IsPartition(ProcessedTable(c, r.Ns[q]), r.Ns[q], AllVS(c))
   /\ \A i \in 1 .. Len(r.wins) : WinRangeOk(r, WinRec(r.wins[i]))
   /\ WinSetsOk(r)
-  /\ (r.otf => (r.pair = "rt" /\ r.ntl = 1 /\ r.geom = "Cylindrical" /\ r.maxTof = 0))
+  \* the on-the-fly projector has no settings: it is compared with the matrix under the settings it implements
+  /\ (r.otf => (r.pair = "rt" /\ r.ntl = 1 /\ r.geom = "Cylindrical" /\ r.maxTof = 0 /\ r.req = << 1, 1, 1, 1, 1 >> /\ r.views % 2 = 0))
 
 NsOf(r) == { r.Ns[q] : q \in 1 .. Len(r.Ns) } \cup (IF r.hist THEN 1 .. r.views + 1 ELSE {})
 TabOf(r) ==
@@ -177,8 +179,19 @@ OutputObsOk(r, h) ==
   /\ Len(r.fx) = cfg.nv
   /\ \A v \in 1 .. cfg.nv : r.fx[v] # FxBad /\ Abs(r.fx[v] - h.acc[v]) <= SumTol(h.slack[v], h.mag[v])
 
-SubsetArgsOk(r) == r.N \in 1 .. cfg.views + 1 /\ r.s \in 0 .. r.N - 1 /\ ~r.err
 HistWin(r) == [g |-> << r.w[1], r.w[2] >>, k |-> r.w[3], axlo |-> r.w[4], axhi |-> r.w[5], tlo |-> r.w[6], thi |-> r.w[7], mode |-> r.w[8]]
+\* forward_project(RelatedViewgrams&, ranges) of the on-the-fly projector into viewgrams holding the integer data y:
+\* "it overwrites the data already present in the viewgram" and gives "the same data as forward projection through the
+\* ray-tracing matrix"; accumulate = TRUE describes the known finding C04-otf-accumulates (the projection is ADDED to y)
+OtfObs(r, accumulate) ==
+  /\ cfg.otf /\ l > base + cfg.nb /\ ~r.err /\ WinRangeOk(cfg, HistWin(r)) /\ r.w[3] = 0
+  /\ IntsOk(r.y, cfg.nb, 3) /\ IntsOk(r.x, cfg.nv, 2) /\ Len(r.fx) = cfg.nb /\ Len(r.ord) = cfg.nb
+  /\ \A i \in 1 .. cfg.nb :
+       IF InWin(HistWin(r), BinLine(i - 1).b) THEN OtfClose(r.fx[i], BinLine(i - 1).F, r.x, IF accumulate THEN r.y[i] * FxOne ELSE 0)
+       ELSE r.fx[i] = r.y[i] * FxOne
+OtfClass(r) == IF OtfObs(r, FALSE) THEN "ok" ELSE IF OtfObs(r, TRUE) THEN "C04-otf-accumulates" ELSE "on-the-fly-group"
+
+SubsetArgsOk(r) == r.N \in 1 .. cfg.views + 1 /\ r.s \in 0 .. r.N - 1 /\ ~r.err
 HistWinOk(r) == WinRangeOk(cfg, HistWin(r)) /\ ~r.err
 
 \* one history line: <<class, next history state>>
@@ -234,6 +247,7 @@ Next ==
      /\ LET res == CASE r.e = "Config" -> << IF ConfigOk(r) THEN "ok" ELSE "config", NoHistState >>
                      [] r.e = "Bin" -> << IF cfg.nb > 0 THEN BinClass(r) ELSE "no-config", [hs EXCEPT !.nnz = hs.nnz + Len(r.F)] >>
                      [] r.e = "Col" -> << IF cfg.nb > 0 THEN ColClass(r) ELSE "no-config", [hs EXCEPT !.ncol = hs.ncol + Len(r.col)] >>
+                     [] r.e = "OtfGroup" -> << IF cfg.nb > 0 THEN OtfClass(r) ELSE "no-config", hs >>
                      [] IsHistEvent(r) -> IF cfg.nb > 0 /\ InHist THEN HistStep(r) ELSE << "no-config", hs >>
                      \* a block the library refused to set up, a history whose projectors could not be built: never expected
                      [] OTHER -> << "unknown-event", hs >> IN
@@ -242,9 +256,9 @@ Next ==
         /\ cfg' = IF r.e = "Config" THEN (IF ConfigOk(r) THEN r ELSE NoCfg) ELSE IF res[1] = "layout" THEN NoCfg ELSE cfg
         /\ LET bad1 == IF res[1] = "ok" \/ Len(bad) >= 400 THEN bad ELSE Append(bad, << l, res[1] >>)
                \* every block is complete: nb Bin lines, and nv Col lines in front of the histories
-               prevDone == cfg.nb = 0 \/ (IF cfg.hist THEN l > base + cfg.nb + cfg.nv ELSE l = base + 1 + cfg.nb)
+               prevDone == cfg.nb = 0 \/ l > base + cfg.nb + (IF cfg.hist THEN cfg.nv ELSE 0)
                lastDone == IF r.e = "Config" THEN ~ConfigOk(r)
-                           ELSE cfg.nb = 0 \/ (IF cfg.hist THEN l >= base + cfg.nb + cfg.nv ELSE l = base + cfg.nb)
+                           ELSE cfg.nb = 0 \/ l >= base + cfg.nb + (IF cfg.hist THEN cfg.nv ELSE 0)
                bad2 == IF r.e = "Config" /\ ~prevDone THEN Append(bad1, << l - 1, "incomplete-block" >>) ELSE bad1 IN
            bad' = IF l = Len(TraceLog) /\ ~lastDone THEN Append(bad2, << l, "incomplete-block" >>) ELSE bad2
   /\ l' = l + 1
